@@ -30,7 +30,7 @@ ANCHORS = ['BitStore.frombuffer', 'BitStore.tobytes', 'BitStore.getslice_msb0', 
            'BitStore.__eq__', 'BitStore.count', 'BitStore._copy', 'BitStore.__and__', 'BitStore.__iadd__', 'BitStore.invert_msb0',
            'BitStore.getindex_msb0', 'Bits._setfile', 'Bits._setauto', 'Bits._setbytes_with_truncation', 'Bits._setbitarray',
            'Bits._setauto_no_length_or_offset']
-REQUIRED_OPS = ['route:bin-text', 'route:token', 'route:bytes=', 'route:BytesIO', 'route:bitarray=', 'route:file', 'route:filehandle',
+REQUIRED_OPS = ['route:bits-property', 'route:kw-value', 'route:bin-text', 'route:token', 'route:bytes=', 'route:BytesIO', 'route:bitarray=', 'route:file', 'route:filehandle',
                 'route:slice', 'route:iterable', 'route:auto-bytes', 'route:array', 'route:operator']
 MIN_EVALS = {'quick': 20000, 'thorough': 300000}
 ASSUMPTIONS = ['which end an offset counts from under lsb0 is not stated by any property and is not judged: under lsb0 the twin is '
@@ -52,7 +52,8 @@ def to_bytes(bits):
     return int(bits + '0' * pad, 2).to_bytes((len(bits) + pad) // 8, 'big') if bits else b''
 
 
-ROUTE_FAMILIES = ['bin-text', 'token', 'bytes=', 'BytesIO', 'bitarray=', 'file', 'filehandle', 'slice', 'iterable', 'auto-bytes', 'array', 'operator']
+ROUTE_FAMILIES = ['bin-text', 'token', 'bytes=', 'BytesIO', 'bitarray=', 'file', 'filehandle', 'slice', 'iterable', 'auto-bytes', 'array', 'operator',
+                  'bits-property', 'kw-value']
 
 
 def gen_route(rng, L):
@@ -87,6 +88,10 @@ def gen_route(rng, L):
         r['how'] = rng.choice(['bytes', 'bytearray', 'memoryview', 'BytesIO'])
     elif fam == 'array':
         r['how'] = rng.choice(['B', 'H'])
+    elif fam == 'bits-property':
+        r['how'] = rng.choice(['from-token', 'from-Bits', 'from-BitArray', 'from-file-Bits', 'from-ConstBitStream'])
+    elif fam == 'kw-value':
+        r['how'] = rng.choice(['uint', 'int', 'bytes', 'uintle', 'Dtype-build', 'pack-uint'])
     else:
         r['how'] = rng.choice(['add', 'radd', 'mul', 'join', 'and-ones', 'invert-twice', 'other-class', 'pack-bits', 'shift0'])
     return r
@@ -236,6 +241,43 @@ def build(cls, bits, r, files):
         a = array.array(how)
         a.frombytes(by)
         return cls(a), bits
+    if fam == 'bits-property':
+        if how == 'from-token':
+            src = ('0b' + bits) if L else ''
+        elif how == 'from-file-Bits':
+            if not L or L % 8:
+                raise Skip
+            fn = os.path.join(tmpdir(), f'p{len(files)}_{os.getpid()}.bin')
+            with open(fn, 'wb') as f:
+                f.write(to_bytes(bits))
+            files.append(fn)
+            src = Bits(filename=fn)
+        else:
+            src = mk({'from-Bits': Bits, 'from-BitArray': BitArray, 'from-ConstBitStream': ConstBitStream}[how], bits)
+        if cls in (BitArray, BitStream):
+            o = cls()
+            o.bits = src
+            return o, bits
+        return cls(bits=src), bits
+    if fam == 'kw-value':
+        if not L or L > 300:
+            raise Skip
+        if how == 'uint':
+            return cls(uint=int(bits, 2), length=L), bits
+        if how == 'int':
+            v = int(bits, 2) - ((1 << L) if bits[0] == '1' else 0)
+            return cls(int=v, length=L), bits
+        if how == 'bytes':
+            if L % 8:
+                raise Skip
+            return cls(bytes=to_bytes(bits)), bits
+        if how == 'uintle':
+            if L % 8:
+                raise Skip
+            return cls(uintle=int.from_bytes(to_bytes(bits), 'little'), length=L), bits
+        if how == 'Dtype-build':
+            return cls(bitstring.Dtype('uint', L).build(int(bits, 2))), bits
+        return cls(bitstring.pack(f'uint:{L}', int(bits, 2))), bits
     # operator results
     if how == 'add':
         return mk(cls, bits[:L // 2]) + mk(cls, bits[L // 2:]), bits
